@@ -19,21 +19,26 @@
    Mirrors, as the code is now:
      node.go    renderForLoop (map branch: sortedMapKeys, value variable before key variable, variables stay
                 set after the loop; list branch; not iterable or empty -> else), sortedMapKeys + mapKeyString
-                (stable sort of MapKeys() by the string form of the key), IfNode, SetNode, PrintNode
-     render.go  EvaluateExpression for HashNode (range over the Go map n.items keyed by node, key through
-                ToString, result[key] = val; with the flag dt_hash_ranges_go_map = false: in source order),
-                ArrayNode, VariableNode (missing -> nil), ToString (pointers and funcs through fmt: address)
+                + mapKeyTypeName (stable sort of MapKeys() by the string form of the key, ties by the name of
+                the key's dynamic type), IfNode, SetNode, PrintNode
+     render.go  EvaluateExpression for HashNode (hashKeyOrder: source order; the variant that ranges over the
+                Go map n.items is kept behind the flag dt_hash_ranges_go_map, which the translator sets when
+                it finds that range again), ArrayNode, VariableNode (missing -> nil), ToString / toString /
+                textWithoutAddress (a pointer prints its pointee, nil pointers, funcs and node values print
+                nothing; lists and structs go to fmt, which prints nested pointers and funcs as addresses)
      extension.go  filterFirst (sortedMapKeys), filterLast (maps: error), filterKeys (map[string]interface{}:
                 range + sort.Strings; other maps: sortedMapKeys), filterMerge (MapKeys of the value, then MapKeys
-                of every map argument, into a new map), functionMerge (same, keys through toString into a
-                map[string]interface{}), filterJoin/join (maps fall to toString = fmt), filterLength/length,
-                filterSort (by toString), filterReverse
-   Left out (Unmodelled): fmt's %v rendering of lists, maps and structs, strings as sequences (UTF-8),
+                of every map argument, each key through mapKeyString into a new map[string]interface{}; unsorted,
+                flag dt_merge_filter_unsorted from the translator), functionMerge (map[string]interface{}: range;
+                other maps: sortedMapKeys; keys through toString into a map[string]interface{}), filterJoin/join
+                (maps fall to toString = fmt), filterLength/length, filterSort (all numbers: by value, stable;
+                otherwise by toString), filterReverse
+   Left out (Unmodelled): fmt's %v rendering of maps and of nested collections, strings as sequences (UTF-8),
    the loop variable, arithmetic, tests, attribute access on anything but string-keyed maps, key
    conversions in getItem, includes, macros, inheritance. Failures: the evaluator is pure, so the order
-   in which the pairs of a hash literal are evaluated is unobservable on success; on failure Go reports
-   the first failing pair in iteration order, the model the first in source order (every error of this
-   fragment has class other). *)
+   in which the pairs of a hash literal are evaluated is unobservable on success; should the pairs be ranged
+   in map order again, Go would report the first failing pair in iteration order, the model the first in
+   source order (every error of this fragment has class other). *)
 From Coq Require Import List ZArith Bool Decimal DecimalZ.
 From Twig Require Import Base.Bytes Base.SortPerm Model.Ast Model.Value Gen.MapRanges.
 Import ListNotations.
@@ -48,6 +53,12 @@ Definition dt_site_is (f e : bytes) (s : bytes * bytes * bytes * bytes * bool) :
   match s with (_, fn, ex, _, _) => bytes_eqb fn f && bytes_eqb ex e end.
 Definition dt_hash_ranges_go_map : bool :=
   existsb (dt_site_is b#"RenderContext.EvaluateExpression" b#"n.items") maprange_sites.
+
+(* the translator found filterMerge taking the keys of the value or of an argument straight from MapKeys() *)
+Definition dt_site_unsorted (f : bytes) (s : bytes * bytes * bytes * bytes * bool) : bool :=
+  match s with (_, fn, _, _, sorted) => bytes_eqb fn f && negb sorted end.
+Definition dt_merge_filter_unsorted : bool :=
+  existsb (dt_site_unsorted b#"CoreExtension.filterMerge") maprange_sites.
 
 (* ---------------------------------------------------------------- outcome plumbing *)
 Definition dt_bind {A B} (o : outcome A) (f : A -> outcome B) : outcome B :=
@@ -103,24 +114,13 @@ Definition dt_is_key (k : value) : bool := match k with VInt _ | VStr _ => true 
 Definition dt_is_str (k : value) : bool := match k with VStr _ => true | _ => false end.
 Definition dt_is_int (k : value) : bool := match k with VInt _ => true | _ => false end.
 
-(* ToString / toString: pointers, funcs fall through to fmt %v, which prints the address *)
-Definition dt_tostring (al : daddr) (v : value) : outcome bytes :=
-  match v with
-  | VNull => Ok []
-  | VBool true => Ok b#"true"
-  | VBool false => Ok b#"false"
-  | VInt z => Ok (dt_itoa z)
-  | VStr s => Ok s
-  | VPtr None => Ok b#"<nil>"
-  | VPtr (Some (VInt _)) | VPtr (Some (VStr _)) | VPtr (Some (VBool _)) => Ok (b#"0x" ++ al v)
-  | VOpaque _ => Ok (b#"0x" ++ al v)
-  | _ => Unmodelled
-  end.
-
-Fixpoint dt_tostring_list (al : daddr) (vs : list value) : outcome (list bytes) :=
-  match vs with
-  | [] => Ok []
-  | v :: r => dt_bind (dt_tostring al v) (fun s => dt_bind (dt_tostring_list al r) (fun ss => Ok (s :: ss)))
+(* mapKeyTypeName: the name of the dynamic type of a key *)
+Definition dt_key_type (k : value) : bytes :=
+  match k with
+  | VInt _ => b#"int"
+  | VStr _ => b#"string"
+  | VBool _ => b#"bool"
+  | _ => []
   end.
 
 Fixpoint dt_join (sep : bytes) (ss : list bytes) : bytes :=
@@ -128,6 +128,50 @@ Fixpoint dt_join (sep : bytes) (ss : list bytes) : bytes :=
   | [] => []
   | [s] => s
   | s :: r => s ++ sep ++ dt_join sep r
+  end.
+
+(* fmt %v of an element of a list or of a field of a struct: a non-nil pointer and a func are printed as addresses *)
+Definition dt_fmt_elem (al : daddr) (v : value) : outcome bytes :=
+  match v with
+  | VNull => Ok b#"<nil>"
+  | VBool true => Ok b#"true"
+  | VBool false => Ok b#"false"
+  | VInt z => Ok (dt_itoa z)
+  | VStr s => Ok s
+  | VPtr None => Ok b#"<nil>"
+  | VPtr (Some _) => Ok (b#"0x" ++ al v)
+  | VOpaque _ => Ok (b#"0x" ++ al v)
+  | _ => Unmodelled
+  end.
+
+Fixpoint dt_fmt_elems (al : daddr) (vs : list value) : outcome (list bytes) :=
+  match vs with
+  | [] => Ok []
+  | v :: r => dt_bind (dt_fmt_elem al v) (fun s => dt_bind (dt_fmt_elems al r) (fun ss => Ok (s :: ss)))
+  end.
+
+(* ToString / toString with textWithoutAddress: a pointer prints what it points to, a nil pointer, a func
+   and a node value print nothing; lists and structs are printed by fmt *)
+Fixpoint dt_tostring (al : daddr) (v : value) : outcome bytes :=
+  match v with
+  | VNull => Ok []
+  | VBool true => Ok b#"true"
+  | VBool false => Ok b#"false"
+  | VInt z => Ok (dt_itoa z)
+  | VStr s => Ok s
+  | VPtr None => Ok []
+  | VPtr (Some x) => dt_tostring al x
+  | VOpaque _ => Ok []
+  | VMacro _ _ => Ok []
+  | VList _ xs => dt_bind (dt_fmt_elems al xs) (fun ss => Ok (b#"[" ++ dt_join b#" " ss ++ b#"]"))
+  | VStruct _ fs => dt_bind (dt_fmt_elems al (map snd fs)) (fun ss => Ok (b#"{" ++ dt_join b#" " ss ++ b#"}"))
+  | _ => Unmodelled
+  end.
+
+Fixpoint dt_tostring_list (al : daddr) (vs : list value) : outcome (list bytes) :=
+  match vs with
+  | [] => Ok []
+  | v :: r => dt_bind (dt_tostring al v) (fun s => dt_bind (dt_tostring_list al r) (fun ss => Ok (s :: ss)))
   end.
 
 (* toBool *)
@@ -177,9 +221,10 @@ Definition dt_canon (m : dentries) : dentries := sp_isort bytes_leb (fun kv => d
 (* a range over the map with oracle code p *)
 Definition iter_map (p : list nat) (m : dentries) : dentries := apply_perm p m.
 
-(* sortedMapKeys: MapKeys() in map order, then sort.SliceStable by the key string *)
+(* sortedMapKeys: MapKeys() in map order, then sort.SliceStable by the key string and, on ties, the type name *)
+Definition dt_sort_key (kv : value * value) : bytes * bytes := (dt_keystr (fst kv), dt_key_type (fst kv)).
 Definition dt_sorted_entries (p : list nat) (m : dentries) : dentries :=
-  sp_isort bytes_leb (fun kv => dt_keystr (fst kv)) (iter_map p m).
+  sp_isort bytes2_leb dt_sort_key (iter_map p m).
 
 (* for _, key := range m.MapKeys() { acc[key] = m[key] }; the accumulated map is kept in canonical order *)
 Definition dt_map_put_all (p : list nat) (m acc : dentries) : dentries :=
@@ -247,12 +292,19 @@ Fixpoint dt_nodupb (l : list bytes) : bool :=
   | x :: r => negb (existsb (bytes_eqb x) r) && dt_nodupb r
   end.
 
+Definition dt_is_num (v : value) : bool := match v with VInt _ => true | _ => false end.
+Definition dt_num (v : value) : Z := match v with VInt z => z | _ => 0%Z end.
+
 Definition dt_sort (al : daddr) (v : value) : outcome value :=
   match v with
   | VNull => Ok VNull
-  | VList LInts _ => Unmodelled                      (* sort.Ints: numeric order *)
   | VList LArray _ => Unmodelled
-  | VList _ xs =>
+  | VList LAny [] => Ok v
+  | VList LStrings xs | VList LAny xs | VList LInts xs =>
+      if forallb dt_is_num xs
+      then (* allNumbers: sort.SliceStable / sort.Ints by value *)
+           Ok (VList LAny (sp_isort Z.leb dt_num xs))
+      else
       dt_bind (dt_tostring_list al xs) (fun ss =>
         if dt_nodupb ss
         then Ok (VList LAny (map snd (sp_isort bytes_leb fst (combine ss xs))))
@@ -268,18 +320,6 @@ Definition dt_reverse (v : value) : outcome value :=
   | _ => Err EOther
   end.
 
-(* the maps among the arguments, with the oracle code of the range over each *)
-Fixpoint dt_merge_maps (pi : doracle) (i : nat) (tag : mtag) (args : list value) (acc : dentries) : outcome dentries :=
-  match args with
-  | [] => Ok acc
-  | VMap tag' m :: r =>
-      (* SetMapIndex panics when the key or value types do not fit: only maps of the same Go type *)
-      if match tag, tag' with MAny, MAny | MStrStr, MStrStr | MIntStr, MIntStr | MStrInt, MStrInt => true | _, _ => false end
-      then dt_merge_maps pi (S i) tag r (dt_map_put_all (pi [i]) m acc)
-      else Unmodelled
-  | _ :: r => dt_merge_maps pi (S i) tag r acc
-  end.
-
 Fixpoint dt_merge_lists (args : list value) : list value :=
   match args with
   | [] => []
@@ -287,37 +327,44 @@ Fixpoint dt_merge_lists (args : list value) : list value :=
   | _ :: r => dt_merge_lists r
   end.
 
-(* all keys of one Go key type: otherwise the map is an interface-keyed one, which merge is not modelled for *)
-Definition dt_homogeneous (m : dentries) : bool := dt_all_keys dt_is_str m || dt_all_keys dt_is_int m.
+(* every key goes through mapKeyString / toString into a map[string]interface{} *)
+Definition dt_strkeys (m : dentries) : dentries := map (fun kv => (VStr (dt_keystr (fst kv)), snd kv)) m.
 
-Fixpoint dt_args_homogeneous (str : bool) (args : list value) : bool :=
+(* for _, key := range m.MapKeys() { acc[mapKeyString(key)] = m[key] } *)
+Definition dt_map_put_all_str (p : list nat) (m acc : dentries) : dentries :=
+  dt_canon (dt_map_fill (dt_strkeys (iter_map p m)) acc).
+
+(* for _, key := range sortedMapKeys(m) { acc[toString(key)] = m[key] } *)
+Definition dt_map_put_sorted_str (p : list nat) (m acc : dentries) : dentries :=
+  dt_canon (dt_map_fill (dt_strkeys (dt_sorted_entries p m)) acc).
+
+(* filterMerge on a map: the value, then every map among the arguments; unsorted = keys as MapKeys() yields them *)
+Fixpoint dt_merge_maps (unsorted : bool) (pi : doracle) (i : nat) (args : list value) (acc : dentries) : dentries :=
   match args with
-  | [] => true
-  | VMap _ m :: r => dt_all_keys (if str then dt_is_str else dt_is_int) m && dt_args_homogeneous str r
-  | _ :: r => dt_args_homogeneous str r
+  | [] => acc
+  | VMap _ m :: r =>
+      dt_merge_maps unsorted pi (S i) r
+        (if unsorted then dt_map_put_all_str (pi [i]) m acc else dt_map_put_sorted_str (pi [i]) m acc)
+  | _ :: r => dt_merge_maps unsorted pi (S i) r acc
   end.
 
-Definition dt_merge_filter (pi : doracle) (v : value) (args : list value) : outcome value :=
+Definition dt_merge_filter (unsorted : bool) (pi : doracle) (v : value) (args : list value) : outcome value :=
   match v with
   | VList _ xs => Ok (VList LAny (xs ++ dt_merge_lists args))
-  | VMap tag m =>
-      let str := match m with [] => match tag with MIntStr => false | _ => true end | (k, _) :: _ => dt_is_str k end in
-      if dt_all_keys (if str then dt_is_str else dt_is_int) m && dt_args_homogeneous str args
-      then dt_bind (dt_merge_maps pi 1 tag args (dt_map_put_all (pi [0]) m []))
-                   (fun r => Ok (VMap tag r))
-      else Unmodelled
+  | VMap _ _ => Ok (VMap MAny (dt_merge_maps unsorted pi 0 (v :: args) []))
   | _ => Ok v
   end.
 
-(* functionMerge: every key goes through toString into a map[string]interface{} *)
-Definition dt_strkeys (m : dentries) : dentries := map (fun kv => (VStr (dt_keystr (fst kv)), snd kv)) m.
-Definition dt_map_put_all_str (p : list nat) (m acc : dentries) : dentries :=
-  dt_canon (dt_map_fill (dt_strkeys (iter_map p m)) acc).
+(* functionMerge: a map[string]interface{} is ranged directly, any other map through sortedMapKeys *)
+Definition dt_is_generic (tag : mtag) (m : dentries) : bool :=
+  match tag with MAny => dt_all_keys dt_is_str m | _ => false end.
 
 Fixpoint dt_fmerge_maps (pi : doracle) (i : nat) (args : list value) (acc : dentries) : dentries :=
   match args with
   | [] => acc
-  | VMap _ m :: r => dt_fmerge_maps pi (S i) r (dt_map_put_all_str (pi [i]) m acc)
+  | VMap tag m :: r =>
+      dt_fmerge_maps pi (S i) r
+        (if dt_is_generic tag m then dt_map_put_all_str (pi [i]) m acc else dt_map_put_sorted_str (pi [i]) m acc)
   | _ :: r => dt_fmerge_maps pi (S i) r acc
   end.
 
@@ -332,11 +379,11 @@ Definition dt_merge_function (pi : doracle) (args : list value) : outcome value 
   match args with
   | [] | [_] => Err EOther
   | VList _ xs :: r => Ok (VList LAny (xs ++ dt_fmerge_lists r))
-  | VMap _ m :: r => Ok (VMap MAny (dt_fmerge_maps pi 1 r (dt_map_put_all_str (pi [0]) m [])))
+  | VMap _ _ :: _ => Ok (VMap MAny (dt_fmerge_maps pi 0 args []))
   | _ => Err EOther
   end.
 
-Definition dt_filter (pi : doracle) (al : daddr) (name : bytes) (v : value) (args : list value) : outcome value :=
+Definition dt_filter (unsorted : bool) (pi : doracle) (al : daddr) (name : bytes) (v : value) (args : list value) : outcome value :=
   if bytes_eqb name b#"first" then dt_first pi v
   else if bytes_eqb name b#"last" then dt_last v
   else if bytes_eqb name b#"keys" then dt_keys pi v
@@ -344,7 +391,7 @@ Definition dt_filter (pi : doracle) (al : daddr) (name : bytes) (v : value) (arg
   else if bytes_eqb name b#"join" then dt_join_filter al v args
   else if bytes_eqb name b#"sort" then dt_sort al v
   else if bytes_eqb name b#"reverse" then dt_reverse v
-  else if bytes_eqb name b#"merge" then dt_merge_filter pi v args
+  else if bytes_eqb name b#"merge" then dt_merge_filter unsorted pi v args
   else Unmodelled.
 
 Definition dt_function (pi : doracle) (name : bytes) (args : list value) : outcome value :=
@@ -407,11 +454,11 @@ Fixpoint dt_eval_pairs (ev : doracle -> expr -> outcome value) (al : daddr) (pi 
 Definition dt_hash_build (go_map : bool) (p : list nat) (pairs : dentries) : value :=
   VMap MAny (dt_canon (dt_map_fill (if go_map then iter_map p pairs else pairs) [])).
 
-Fixpoint dt_eval (go_map : bool) (fu : nat) (pi : doracle) (al : daddr) (env : denv) (e : expr) : outcome value :=
+Fixpoint dt_eval (go_map mu : bool) (fu : nat) (pi : doracle) (al : daddr) (env : denv) (e : expr) : outcome value :=
   match fu with
   | O => OutOfFuel
   | S fu' =>
-      let ev := fun p x => dt_eval go_map fu' p al env x in
+      let ev := fun p x => dt_eval go_map mu fu' p al env x in
       match e with
       | ELit l => Ok (dt_lit l)
       | EVar x => Ok (dt_env_get env x)
@@ -422,7 +469,7 @@ Fixpoint dt_eval (go_map : bool) (fu : nat) (pi : doracle) (al : daddr) (env : d
       | EFilter x f args =>
           (* the arguments are evaluated before the filtered expression (DetectFilterChain) *)
           dt_bind (dt_eval_list ev pi 3 args) (fun avs =>
-          dt_bind (ev (dsub 2 pi) x) (fun xv => dt_filter pi al f xv avs))
+          dt_bind (ev (dsub 2 pi) x) (fun xv => dt_filter mu pi al f xv avs))
       | ECall f args => dt_bind (dt_eval_list ev pi 2 args) (fun avs => dt_function pi f avs)
       | _ => Unmodelled
       end
@@ -475,12 +522,12 @@ Fixpoint dt_if (ev : doracle -> expr -> outcome value) (rns : doracle -> denv ->
         if dt_truthy cv then rns (dsub (S i) pi) env body else dt_if ev rns pi (S (S i)) env r els)
   end.
 
-Fixpoint dt_render_node (go_map : bool) (fu : nat) (pi : doracle) (al : daddr) (env : denv) (n : node) : outcome dres :=
+Fixpoint dt_render_node (go_map mu : bool) (fu : nat) (pi : doracle) (al : daddr) (env : denv) (n : node) : outcome dres :=
   match fu with
   | O => OutOfFuel
   | S fu' =>
-      let ev := fun p x => dt_eval go_map fu' p al env x in
-      let rns := fun p en ns => dt_render_nodes (fun q e2 m => dt_render_node go_map fu' q al e2 m) p 0 en ns in
+      let ev := fun p x => dt_eval go_map mu fu' p al env x in
+      let rns := fun p en ns => dt_render_nodes (fun q e2 m => dt_render_node go_map mu fu' q al e2 m) p 0 en ns in
       match n with
       | NText s => Ok (s, env)
       | NPrint e => dt_bind (ev (dsub 2 pi) e) (fun v => dt_bind (dt_tostring al v) (fun s => Ok (s, env)))
@@ -501,8 +548,8 @@ Fixpoint dt_render_node (go_map : bool) (fu : nat) (pi : doracle) (al : daddr) (
       end
   end.
 
-Definition dt_render (go_map : bool) (fu : nat) (pi : doracle) (al : daddr) (env : denv) (ns : list node) : outcome dres :=
-  dt_render_nodes (fun q e m => dt_render_node go_map fu q al e m) pi 0 env ns.
+Definition dt_render (go_map mu : bool) (fu : nat) (pi : doracle) (al : daddr) (env : denv) (ns : list node) : outcome dres :=
+  dt_render_nodes (fun q e m => dt_render_node go_map mu fu q al e m) pi 0 env ns.
 
 (* ---------------------------------------------------------------- building the context *)
 (* A context description lists the entries of every map in insertion order. Building the Go value
@@ -520,11 +567,11 @@ Fixpoint dt_load (v : value) : value :=
 Definition dt_load_env (ctx : denv) : denv :=
   sp_isort bytes_leb fst (map (fun f => (fst f, dt_load (snd f))) ctx).
 
-Definition dt_render_ctx (go_map : bool) (fu : nat) (pi : doracle) (al : daddr) (ctx : denv) (ns : list node) : outcome bytes :=
-  dt_bind (dt_render go_map fu pi al (dt_load_env ctx) ns) (fun r => Ok (fst r)).
+Definition dt_render_ctx (go_map mu : bool) (fu : nat) (pi : doracle) (al : daddr) (ctx : denv) (ns : list node) : outcome bytes :=
+  dt_bind (dt_render go_map mu fu pi al (dt_load_env ctx) ns) (fun r => Ok (fst r)).
 
 (* the engine as it is now *)
-Definition dt_render_now := dt_render_ctx dt_hash_ranges_go_map.
+Definition dt_render_now := dt_render_ctx dt_hash_ranges_go_map dt_merge_filter_unsorted.
 
 (* an oracle given by a table of codes, for the case generator: path -> code, identity elsewhere *)
 Fixpoint dt_path_eqb (a b : list nat) : bool :=
